@@ -347,6 +347,11 @@ def apply(mid: str, m: dict, i: int):
         r["appearance"] = "search('sfile')"
         S.append(dict(type=f"select_one {lst}", name="plain_reader", label="PR"))
         return [r["name"], lst]
+    if mid == "search_list_shared_randomized":
+        lst = r["type"].split()[1]
+        r["appearance"] = "search('sfile')"
+        S.append(dict(type=f"select_one {lst}", name="plain_reader", label="PR", parameters="randomize=true"))
+        return [r["name"], lst]
     if mid == "choice_extra_column_translated":
         C[0]["geometry::fr"] = "1 2"
         return ["geometry"]
